@@ -5,7 +5,7 @@ audited sites; in-place conversion goes through Arc uniqueness; FFI export/relea
 clears the callback, from_raw moves out with ptr::replace; mem::forget never strands an owning field
 (checked with the `pool` feature compiled in)."""
 import re
-from . import facts as factsmod, api, flow, disc
+from . import facts as factsmod, api, flow, disc, pairs
 from .mirlib import Body, callee, callee_names, op_local, op_place, operand_locals, rvalue_operands, rvalue_locals
 
 SHARED_TYPES = ["arrow_buffer::buffer::immutable::Buffer", "arrow_buffer::buffer::scalar::ScalarBuffer",
@@ -329,6 +329,7 @@ def run(ck, tier):
             ck.bad("C16.inplace-through-unique", iid, "%s no longer goes through %s to obtain mutable storage" % (fid, via), "%s:%s" % (fns[0]["file"], fns[0]["line"]))
 
     run_ffi(ck, F)
+    pairs.check_cross(ck, F, "C16.export-bit-offsets", ["arrow_data", "arrow_array", "arrow_buffer"], 2)
     FX = factsmod.Facts("ext")
     run_forget(ck, FX, "ext")
     ck.note("Decided: type-level immutability (witnesses + impl facts), audited const casts, uniqueness before mutation, FFI export/release pairing, "
